@@ -63,7 +63,17 @@ def gen_cases(tier, rng):
                 t += s
                 ts.append(t)
             case.update(unit=unit, t0=t0, times=ts, halflife_s=rng.choice([1, 2, 5]))
-            if rng.random() < 0.3:
+            if rng.random() < 0.25:
+                # timezone-aware timestamps in a zone with daylight saving, half-hour steps across a clock change (the elapsed
+                # time is the difference of the instants, not of the wall-clock readings)
+                zone, start = rng.choice([("US/Eastern", 1_710_050_400), ("Europe/London", 1_729_981_800), ("UTC", 1_710_050_400),
+                                          ("Australia/Lord_Howe", 1_712_412_000)])
+                ts, t = [], 0
+                for _ in range(L):
+                    t += rng.choice([0, 1800, 1800, 3600, 5400])
+                    ts.append(t)
+                case.update(unit=rng.choice(["s", "ns"]), t0=start, times=ts, halflife_s=rng.choice([1800, 3600, 7200]), tz=zone)
+            elif rng.random() < 0.3:
                 # nanosecond-resolution ticks far from the epoch with a sub-microsecond halflife: any float64 detour of the
                 # timestamps (2^53 < t) changes the elapsed times visibly
                 base = 1_700_000_000_123_456_789
@@ -141,6 +151,8 @@ def run_impl(case):
         else:
             mult = {"s": 1, "ms": 10 ** 3, "us": 10 ** 6, "ns": 10 ** 9}[case["unit"]]
             ts = np.array([(case["t0"] + t) * mult for t in case["times"]], dtype="int64").view(f"datetime64[{case['unit']}]")
+            if case.get("tz"):
+                ts = pd.DatetimeIndex(ts).tz_localize("UTC").tz_convert(case["tz"])
             kw["times"] = ts
             kw["halflife"] = f"{case['halflife_s']}s"
     index = None
@@ -188,7 +200,7 @@ def evaluate(case, drv):
             nvalid[c] = nvalid.get(c, 0) + 1
     res = dict(tags=[f"variant:{case['variant']}", f"entry:{case['entry']}", f"dt:{case['dt']}", "mask:" + ("b" if case["mask"] else "none"),
                      "by-groups" if case["by_groups"] else "flat", "null-key" if any(c < 0 for c in codes) else "no-null-key",
-                     f"unit:{case.get('unit', '-')}", "pre1970" if case.get("t0", 0) < 0 else "post1970"],
+                     f"unit:{case.get('unit', '-')}", f"tz:{case.get('tz', '-')}", "pre1970" if case.get("t0", 0) < 0 else "post1970"],
                size=L, key=repr(sorted(case.items())), nontrivial=max(list(nvalid.values()) + [0]) >= 2,
                bucket=(case["variant"], case["entry"], case["by_groups"], case.get("unit"), case.get("t0", 0) < 0, any(c < 0 for c in codes),
                        case["mask"] is not None))
